@@ -41,6 +41,8 @@ var lenientInit = map[string]bool{
 	"math/bits": true, "sync": true, "sync/atomic": true, "internal/bytealg": true,
 	"internal/oserror": true, "io/fs": true, "syscall": true, "os": true, "net": true, "time": true, "context": true,
 	"internal/poll": true,
+	// only for its error values (ErrBadHandshake is compared by transport/ws); everything behind it is stubbed (vws)
+	"github.com/gorilla/websocket": true,
 }
 
 func loadProgram(repo, harnessDir string) (*Program, error) {
